@@ -18,7 +18,9 @@ info('C20',
      'verified from the real source against an abstract view plus representation invariant, from an arbitrary state '
      'satisfying the invariant, so the sequential specification holds for every finite history by induction. '
      'B (bounded, not proof): the real CacheFile with every storage class, with and without the worker thread, and the real '
-     'EventHandler on random histories against dict/list models, every call under a deadline.',
+     'EventHandler on random histories against dict/list models, every call under a deadline. '
+     'P also: Worker.join_tasks over a ghost worker/queue state: WorkerDied iff the worker was dead on entry or died while waiting; '
+     'Queue.join() is only reached in a state where it can return (no hang on a dead worker) (contracts/c_thread.py).',
      ['thread interleavings inside a task and the memory model: this family is silent on concurrency; ThreadedStorage is '
       'exercised with the real thread only boundedly (schedules are whatever the OS produced)',
       'PickleStorage/Hdf5Storage file mapping: bounded only'],
@@ -37,7 +39,8 @@ info('C14',
      'evolved_time for split runs, trunc_err accounting with real truncations).',
      ['exp(-iHt) numerics, order of convergence, norm/energy conservation: bounded only',
       'complex (imaginary-time) dt: dt is modelled as a real number in the deductive part',
-      'QR-based TEBD, single-site TDVP and purification engines: accounting bounded/inherited only'],
+      'purification engines (PurificationTEBD / PurificationApplyMPO): accounting inherited from TEBDEngine.run_evolution, own '
+      'update methods bounded only'],
      ['leaf updates (evolve_step/update_bond/sweep) are abstract: they return some TruncationError and do not assign '
       'self.trunc_err/self.evolved_time (the latter is checked syntactically on every run)',
       'lemma sum(xs*n) == n*sum(xs) for list repetition is built into seg_weight',
@@ -88,7 +91,7 @@ info('C04',
      '(extension rebuilt from the current _npc_helper.pyx / TENPY_NO_CYTHON=1), results compared field by field; both processes '
      'report which implementation is active. The compiled side of C01/C02/C03/C05/C06 is likewise always a fresh build.',
      ['Cython kernels with pointers, BLAS calls, typed 2D buffers or numpy C-API calls (_tensordot_worker, _inner_worker, '
-      '_combine_legs_worker, _split_legs_worker, _sliced_copy, Array_itranspose_fast, _find_row_differences): not extractable / '
+      '_combine_legs_worker, _split_legs_worker, _sliced_copy, Array_itranspose_fast): not extractable / '
       'outside the subset - bounded differential only',
       'assumed for the extracted kernels: Cython compiles the Python-like body with Python semantics; no C integer overflow; '
       'memoryview element access is plain element access; _np_empty_1D allocates n elements; vector.push_back appends a copy',
@@ -123,8 +126,11 @@ info('C07',
      'B (bounded, not proof): constructors (from_full, from_product_state, from_Bflat + canonical_form, from_singlets, from_product_mps_covering with random entangled local '
      'states on interleaved site sets) and random '
      'histories of form conversions/canonicalisations against the dense state, Schmidt values and entropies at every cut, the '
-     'recorded norm; infinite MPS under canonical_form_infinite1/2 keep their observables.',
-     ['numerical canonicalisation: bounded only', 'segment MPS: not covered'],
+     'recorded norm; infinite MPS under canonical_form_infinite1/2 keep their observables; segment MPS cut out of finite and infinite '
+     'states; ExactDiag.full_to_mps / mps_to_full in both directions; project_onto_charge_sector against the dense projector.',
+     ['numerical canonicalisation: bounded only',
+      'segment MPS, ExactDiag conversions (complex states in a charge sector), project_onto_charge_sector, '
+      'from_product_mps_covering with unsorted index maps: bounded only'],
      [])
 info('C08',
      'P: BaseEnvironment.get_LP / get_RP, real source, finite and infinite, every L, store on/off: the environment is built from the nearest stored one by absorbing exactly the sites in between, in order (abstract leaf _contract_LP/_contract_RP with that obligation), translated by whole unit cells where needed; the cache keeps its representation invariant (a stored LP[j] covers exactly the sites < j), loses nothing, the other family is untouched, LP[i] is stored afterwards (store=True) or the cache is unchanged (store=False); ValueError iff no stored environment lies within one unit cell (contracts/c_env.py). ' 
@@ -132,8 +138,9 @@ info('C08',
      'site families, against the dense state vector and kron operators with explicit Jordan-Wigner strings: expectation_value, '
      'expectation_value_term(s_sum), correlation_function (all i<j, i=j, i>j; fermionic; operator strings), overlap, '
      'MPSEnvironment with bra != ket, get_rho_segment, average_charge/charge_variance, sample_measurements weights.',
-     ['everything here is numerical: this family contributes no discharged obligation for C08 beyond the shared sign-algebra '
-      'obligations of C10/C12; infinite and segment states are not compared'],
+     ['the measured numbers themselves are numerical: the deductive part covers the environment bookkeeping (which sites are '
+      'absorbed, cache invariant) only; _term_to_ops_list is bounded only; infinite states are compared only through '
+      'translation invariance and finite windows'],
      [])
 info('C09',
      'P: MPS.permute_sites, real source, every L and every permutation: with the swap as abstract leaf (ghost array content[k] = original '
@@ -172,31 +179,36 @@ info('C12',
      ['grouped-site combinations and quadruples are sampled, not exhaustive'],
      [])
 info('C19',
-     'P: periodic extension of mps2lat_idx/lat2mps_idx (see contracts/c_lattice.py). '
+     'P: only the shared inverse_permutation contract (tools/misc.py; used by the ordering / index maps): result is the inverse '
+     'permutation for every n. '
      'B (bounded; exhaustive for the stated finite domain in the thorough tier): every lattice class, sizes up to 4x4, orderings '
      '(named and custom permutation), every open/periodic/shifted x finite/infinite combination, all displacement vectors up to the '
      'lattice size and all sublattice pairs: index maps mutually inverse and injective (infinite: on [-2N,3N) and periodic), '
      'mps2lat_values placement, possible_couplings equal to a brute-force enumeration over coordinate pairs, unit-cell assignment of '
-     'boundary couplings; neighbour lists against Euclidean distances; irregular, multi-species, helical lattices.',
-     ['quick tier samples 40 displacement vectors per lattice and four orderings on sizes <= 3x2'],
+     'boundary couplings; neighbour lists against Euclidean distances; irregular, multi-species (positions, pairs), helical lattices; '
+     'mps2lat_values_masked for index sets left of / inside / right of the unit cell and every order.',
+     ['lattice index arithmetic as deductive obligations (numpy-heavy): not built - the finite domain named in the property is '
+      'enumerated instead', 'quick tier samples 40 displacement vectors per lattice and four orderings on sizes <= 3x2',
+      'known findings F-15 (open x with shifted y, |dx0| >= Lx), F-35 (NLegLadder nearest_neighbors)'],
      [])
 info('C15',
-     'P: TruncationError.__add__/copy/from_norm, _combine_constraints (contracts/c_timeevol.py, c_truncation.py). '
+     'P: TruncationError.__add__/copy/from_norm only (contracts/c_timeevol.py). '
      'B (bounded; exhaustive over the stated grid in the thorough tier): truncate() against an independent brute-force statement of '
      'the option lattice (all cuts enumerated) for all spectra of length <= 5 over a value grid with exact degeneracies, zeros, '
      'unnormalised and unsorted input x the full option grid incl. None: kept multiset, T1, norm and discarded weight; svd_theta: '
      'squared relative reconstruction error equals the reported error with the reported renormalization.',
      ['truncate() as an unbounded deductive obligation over symbolic spectra: not built in this round (bounded only)',
-      'eigh_rho and decompose_theta_qr_based: exercised only by the repository tests'],
+      'eigh_rho: bounded only (trace, kept weight, reported error); decompose_theta_qr_based: exercised only by the repository tests'],
      [])
 info('C16',
-     'P: KrylovBased._to_cache FIFO contract (contracts/c_krylov.py). '
+     'P: KrylovBased._to_cache (FIFO of size N_cache) and _calc_result_full (every coefficient vf[j] is paired exactly once with the '
+     'Krylov vector q(j), for every N_cache >= 2 and every Krylov dimension N >= 2, across rebuilds of the evicted vectors) '
+     '(contracts/c_krylov.py). '
      'B (bounded, not proof): LanczosGroundState over N_cache in {2,3,N_max} x reortho x E_shift on random Hermitian block-sparse '
      'operators (normalised vector, E0 = Rayleigh quotient >= minimum of the sector, exact at full Krylov dimension, independent of '
      'N_cache), orthogonal projection, Shift/Sum operator wrappers, Lanczos/Arnoldi evolution vs expm (norm preserving for '
      'anti-Hermitian exponents), Arnoldi Ritz pairs ordered by `which`, gram_schmidt, GMRES residual.',
-     ['Lanczos numerics and convergence: bounded only', 'index coverage of _calc_result_full for every N_cache as a deductive obligation: '
-      'not built'],
+     ['Lanczos numerics and convergence: bounded only', 'Arnoldi / GMRES / evolution classes: bounded only; known finding F-36 (GMRES breakdown)'],
      [])
 info('C17',
      'P: relational save -> load symbolic execution over an abstract store (ghost path/attribute dictionaries) of the real '
@@ -212,11 +224,13 @@ info('C17',
 info('C18',
      'P: crash invariant of Simulation.save_results over the full finite file-state domain (ghost states absent/partial/complete(old)/'
      'complete(new) of output and backup; POSIX contracts for exists/unlink/rename; _save_to_file interruptible): an obligation at every '
-     'crash point, plus the normal-exit state; the real control flow of save_results is executed symbolically. '
+     'crash point, plus the normal-exit state; the real control flow of save_results is executed symbolically; '
+     'Simulation.fix_output_filenames on a resume never destroys a complete file. '
      'B (bounded, labelled fault enumeration): the same on the real file system (pickle and HDF5, byte prefixes), and resume from every '
      'early checkpoint of a TEBD time evolution and a two-site DMRG ground-state search compared with the uninterrupted run.',
      ['whole-run equality (resume == uninterrupted) is a history property: bounded only',
-      'engines other than TEBDEngine/TwoSiteDMRGEngine: not resumed'],
+      'resumed boundedly: TEBD time evolution, two-site DMRG (with/without mixer, default min_sweeps, measurements at algorithm '
+      'checkpoints), TimeDependentCorrelation / bra-ket / spectral-function simulations; other simulation classes are not resumed'],
      ['Path.exists/unlink/rename and _save_to_file obey their POSIX ghost contracts (rename is an atomic replace)'])
 info('C11',
      'P: BaseEnvironment.get_LP / get_RP, real source, finite and infinite, every L, store on/off: the environment is built from the nearest stored one by absorbing exactly the sites in between, in order (abstract leaf _contract_LP/_contract_RP with that obligation), translated by whole unit cells where needed; the cache keeps its representation invariant (a stored LP[j] covers exactly the sites < j), loses nothing, the other family is untouched, LP[i] is stored afterwards (store=True) or the cache is unchanged (store=False); ValueError iff no stored environment lies within one unit cell (contracts/c_env.py). ' 
@@ -225,7 +239,8 @@ info('C11',
      'B (bounded, not proof): finite MPOs from random term lists for every site family against dense operators: expectation value, '
      'variance, sum, dagger, is_hermitian, is_equal (false positives and negatives), overlap, distance, to_TermList/from_term_list, '
      'plus_identity, apply by every compression method within the reported error, error order of make_U_I/II.',
-     ['MPO numerics; infinite MPOs on a window; W tensors without identity markers: not covered'],
+     ['MPO numerics: bounded only; infinite MPOs: is_equal / is_hermitian / overlap on windows with default and explicit max_range '
+      'are bounded only; W tensors without identity markers: not covered'],
      [])
 info('C13',
      'P (mechanism only, does not decide energies): BaseEnvironment.get_LP / get_RP, real source, finite and infinite, every L, store on/off: the environment is built from the nearest stored one by absorbing exactly the sites in between, in order (abstract leaf _contract_LP/_contract_RP with that obligation), translated by whole unit cells where needed; the cache keeps its representation invariant (a stored LP[j] covers exactly the sites < j), loses nothing, the other family is untouched, LP[i] is stored afterwards (store=True) or the cache is unchanged (store=False); ValueError iff no stored environment lies within one unit cell (contracts/c_env.py). ' 
@@ -237,6 +252,7 @@ info('C13',
      'E = <H> within truncation, E >= E_exact, untruncated two-site DMRG with mixer exact in energy and state; every relation of mixer_params.disable_after to the '
      'number of sweeps (mixer switched off before / in / after the last sweep), finite and infinite: 1D Schmidt values, canonical; VUMPS engines on the '
      'infinite transverse-field Ising chain against the analytic energy per site.',
-     ['convergence in general: this family cannot decide it', 'sweep schedules and environment bookkeeping as deductive obligations '
-      'of BaseEnvironment: not built; the deductive contribution to C13 is the sweep schedule only'],
+     ['convergence in general: this family cannot decide it', 'the deductive contribution to C13 is the sweep schedule and the environment bookkeeping of get_LP/get_RP; the effective '
+      'Hamiltonians, mixers and the update of the state are bounded only',
+      'known findings F-43 (iDMRG ending with the mixer on) and F-51 (single-site DMRG + SubspaceExpansion + explicit_plus_hc)'],
      [])
